@@ -10,23 +10,26 @@
  *     Ghost: gpos = one arbitrary position fixed by the harness (or -1); last_deref = position of the
  *     most recent *it; last_acc / hits are owned by the client's monitor.
  *
- * (B) GHOST-ELEMENT VIEW (OSG_*): find / insert / erase(key) / size / end for ONE observed stored
- *     element (ghas,gval) and one arbitrary *other* stored element (the witness `w`, chosen by the
- *     harness, ohas = "the set has stored elements besides the observed one, and w is one of them").
- *     Because both are arbitrary, a statement proved for them holds for every stored element.
- *     The client supplies OSG_EQUIV(s,a,b) = !comp(a,b) && !comp(b,a) built from the *extracted*
- *     comparator.  Semantics (C++ [associative.reqmts], libstdc++ stl_tree.h):
+ * (B) GHOST-ELEMENT VIEW (OSG_*): find / insert / erase(key) / size / end, seen through ONE observed stored
+ *     element (ghas, gval) that the harness leaves arbitrary (or absent), so a statement proved about it holds for
+ *     every stored element; the rest of the set is abstract.  The client supplies OSG_EQUIV(s,a,b) =
+ *     !comp(a,b) && !comp(b,a) built from the comparator EXTRACTED from pomerol.
+ *     Semantics (C++ [associative.reqmts], libstdc++ stl_tree.h):
  *       find(k)   : an element equivalent to k, end() if there is none
  *       insert(v) : inserts v iff no stored element is equivalent to v
  *       erase(k)  : removes the stored elements equivalent to k, returns their number
- *     ASSUMED (type invariant of std::set, point-wise against the observed element and the witness):
- *       stored elements are pairwise NOT equivalent:           !EQUIV(w, gval)
- *       size() = number of stored elements:                    size >= ghas + ohas
- *     Knowledge the model keeps between calls (all of it is a consequence of the semantics above):
- *       nf_valid/nf_key: "no stored element is equivalent to nf_key" (after find(k)==end(), after
- *       erase(k)); it is dropped by insert.  It is applied to the witness: !EQUIV(w, nf_key).
- *     The comparator is NOT assumed to be a strict weak ordering: when the observed element is
- *     equivalent to k, find(k) may still return another equivalent element (kind OTHER).
+ *     ASSERTED (obligations on pomerol): *it only before end() and only while the element is stored.
+ *     ASSUMED (requirement on Compare): comp(x,x) is false, used only in erase(k) when k is bit-equal to a stored element
+ *       (for GreensFunctionPart::Term::Compare proved bit-precisely for Tolerance > 0: specs/termlist.c h_Compare_order).
+ *     ASSUMED (class invariant of std::set): stored elements are pairwise NOT equivalent -- applied point-wise to the
+ *       observed element, to the element returned by the last find() (fo_val) and to the per-call existential
+ *       witness x of insert ("some other stored element is equivalent to v"); size() >= number of known elements.
+ *     Knowledge kept between calls (consequences of the semantics above, not extra assumptions):
+ *       nf_valid/nf_key: "no stored element is equivalent to nf_key" (after find(k)==end() and after erase(k);
+ *       dropped by insert); applied to the witness x of insert.
+ *     The comparator is NOT assumed to be a strict weak ordering (pomerol's tolerance comparators are not):
+ *       when the observed element is equivalent to k, find(k) may still return another equivalent element (kind OTHER).
+ *       What IS used: if the observed element is equivalent to k then find(k) != end().
  */
 #ifndef VERIF_ORDSET_H
 #define VERIF_ORDSET_H
@@ -52,22 +55,95 @@
   &(it)->s->elems[(it)->pos]; })
 #define OSA_size(s_) ((unsigned long)(s_)->n)
 
-/* ------------------------------------------------------------------ (B) ghost-element view */
+/* ------------------------------------------------------------------ (B) ghost-element view
+ * One instantiation per spec file.  Before using the macros the client defines
+ *   OSG_EQUIV(s, a, b)   !comp(a,b) && !comp(b,a) with the comparator stored in the set (s->comp), comp EXTRACTED from pomerol
+ *   OSG_SAME(a, b)       bit-equality of two elements
+ *   OSG_NONDET()         an arbitrary element (declared by OSG_DECL as nondet_<Set>_elem)
+ */
 enum { OSG_END = 0, OSG_GHOST = 1, OSG_OTHER = 2 };
-#define OSG_DECL(Set, It, Elem) \
+#define OSG_DECL(Set, It, Elem, Comp) \
   typedef struct Set { \
+    Comp comp;                    /* the comparator object the set was constructed with */ \
     unsigned long size; \
-    _Bool ghas; Elem gval;        /* the observed stored element */ \
-    _Bool ohas; Elem w;           /* witness: an arbitrary stored element other than the observed one */ \
-    _Bool nf_valid; Elem nf_key;  /* no stored element is equivalent to nf_key */ \
+    _Bool ghas; Elem gval;        /* the observed stored element (ghost: arbitrary) */ \
+    _Bool fo_valid; Elem fo_val;  /* another stored element, the one the last find() returned (kind OTHER) */ \
+    _Bool nf_valid; Elem nf_key;  /* knowledge: no stored element is equivalent to nf_key */ \
     /* log of the calls (ghost, read by post-conditions) */ \
-    int find_kind; Elem find_val; unsigned long n_find, n_insert_calls, n_inserted, n_erase_calls, n_erased; Elem last_inserted; \
+    int find_kind; Elem find_val; Elem last_inserted; \
+    unsigned long n_find, n_insert_calls, n_inserted, n_erase_calls, n_erased; \
   } Set; \
-  typedef struct It { int kind; Elem val; } It;
-/* type invariant (requires clause) */
-#define OSG_wf(s_) ((s_)->size <= OS_MAX && (s_)->size >= (unsigned long)(s_)->ghas + (unsigned long)(s_)->ohas)
-#define OSG_end(It, s_) ({ It _it; _it.kind = OSG_END; _it; })
-#define OSG_eq(a, b) ((a).kind == (b).kind)   /* only comparisons against end() are meaningful */
+  typedef struct It { Set *s; int kind; Elem val; } It; \
+  Elem nondet_##Set##_elem(void);
+/* type invariant + fresh log (requires clause) */
+#define OSG_wf(s_) ((s_)->size <= OS_MAX && (s_)->size >= (unsigned long)(s_)->ghas && !(s_)->fo_valid && !(s_)->nf_valid && \
+                    (s_)->n_find == 0 && (s_)->n_insert_calls == 0 && (s_)->n_inserted == 0 && (s_)->n_erase_calls == 0 && (s_)->n_erased == 0)
+#define OSG_end(It, s_) ({ It _e; _e.s = (s_); _e.kind = OSG_END; _e; })
+#define OSG_eq(a, b) ((a).kind == (b).kind)   /* only comparisons against end() are meaningful in this view */
 #define OSG_ne(a, b) ((a).kind != (b).kind)
 #define OSG_size(s_) ((s_)->size)
+/* find(k): an element equivalent to k, end() if there is none */
+#define OSG_find(It, s_, k_) ({ \
+  It _r; _r.s = (s_); _r.val = (k_); \
+  _Bool _geq = _r.s->ghas && OSG_EQUIV(_r.s, _r.s->gval, _r.val); \
+  int _c = nondet_int(); \
+  if (_c == OSG_GHOST) { \
+    __CPROVER_assume(_geq);                                   /* the observed element, only if it is equivalent to k */ \
+    _r.kind = OSG_GHOST; _r.val = _r.s->gval; REACH("set_find_observed"); \
+  } else if (_c == OSG_OTHER) { \
+    _r.kind = OSG_OTHER; _r.val = OSG_NONDET();               /* some other stored element o ... */ \
+    __CPROVER_assume(_r.s->size > (unsigned long)_r.s->ghas); \
+    __CPROVER_assume(OSG_EQUIV(_r.s, _r.val, (k_)));         /* ... equivalent to k (semantics of find) */ \
+    __CPROVER_assume(!_r.s->ghas || !OSG_EQUIV(_r.s, _r.val, _r.s->gval));   /* ASSUMED set invariant: stored elements pairwise not equivalent */ \
+    _r.s->fo_valid = 1; _r.s->fo_val = _r.val; REACH("set_find_other"); \
+  } else { \
+    __CPROVER_assume(!_geq);                                  /* end() only if NO stored element is equivalent to k */ \
+    _r.kind = OSG_END; _r.s->nf_valid = 1; _r.s->nf_key = _r.val; REACH("set_find_end"); \
+  } \
+  _r.s->find_kind = _r.kind; _r.s->find_val = _r.val; _r.s->n_find++; \
+  _r; })
+/* *it: only before end() and only while the element is still stored (erase invalidates the iterator) */
+#define OSG_deref(it) ({ \
+  __CPROVER_assert((it)->kind != OSG_END, "std::set iterator: * only before end()"); \
+  __CPROVER_assert((it)->kind == OSG_GHOST ? ((it)->s->ghas && OSG_SAME((it)->s->gval, (it)->val)) \
+                                           : ((it)->s->fo_valid && OSG_SAME((it)->s->fo_val, (it)->val)), \
+                   "std::set iterator: * only while the element is stored (erase invalidates)"); \
+  &(it)->val; })
+/* insert(v): v is inserted iff no stored element is equivalent to v.  A newly inserted element becomes the observed
+ * one if no element is being observed. */
+#define OSG_insert(s_, v_) ({ \
+  __typeof__(s_) _s = (s_); __typeof__(_s->gval) _v = (v_); \
+  _s->n_insert_calls++; \
+  _Bool _blocked = (_s->ghas && OSG_EQUIV(_s, _s->gval, _v)) || (_s->fo_valid && OSG_EQUIV(_s, _s->fo_val, _v)); \
+  if (!_blocked) { \
+    /* is one of the remaining stored elements equivalent to v?  If so there is a witness x, and x obeys what is known */ \
+    _Bool _b = nondet_bool(); __typeof__(_s->gval) _x = OSG_NONDET(); \
+    __CPROVER_assume(!_b || (_s->size > (unsigned long)_s->ghas + (unsigned long)_s->fo_valid && OSG_EQUIV(_s, _x, _v) && \
+                             (!_s->ghas || !OSG_EQUIV(_s, _x, _s->gval)) &&        /* ASSUMED set invariant */ \
+                             (!_s->fo_valid || !OSG_EQUIV(_s, _x, _s->fo_val)) &&  /* ASSUMED set invariant */ \
+                             (!_s->nf_valid || !OSG_EQUIV(_s, _x, _s->nf_key))));  /* established by find()==end() / erase() */ \
+    _blocked = _b; \
+  } \
+  if (!_blocked) { \
+    _s->size++; _s->n_inserted++; _s->last_inserted = _v; \
+    if (!_s->ghas) { _s->ghas = 1; _s->gval = _v; } \
+    REACH("set_inserted"); \
+  } else REACH("set_insert_blocked"); \
+  _s->nf_valid = 0; \
+  !_blocked; })
+/* erase(k): removes every stored element equivalent to k, returns their number */
+#define OSG_erase(s_, k_) ({ \
+  __typeof__(s_) _s = (s_); __typeof__(_s->gval) _k = (k_); unsigned long _cnt = 0; \
+  _s->n_erase_calls++; \
+  /* k is the value of a stored element ==> (ASSUMED set invariant) no OTHER stored element is equivalent to k */ \
+  _Bool _stored_value = (_s->ghas && OSG_SAME(_s->gval, _k)) || (_s->fo_valid && OSG_SAME(_s->fo_val, _k)); \
+  /* ASSUMED: comp is irreflexive (requirement on Compare, [alg.sorting]), i.e. every element is equivalent to itself */ \
+  if (_s->ghas && OSG_SAME(_s->gval, _k)) __CPROVER_assume(OSG_EQUIV(_s, _s->gval, _k)); \
+  if (_s->fo_valid && OSG_SAME(_s->fo_val, _k)) __CPROVER_assume(OSG_EQUIV(_s, _s->fo_val, _k)); \
+  if (_s->ghas && OSG_EQUIV(_s, _s->gval, _k)) { _s->ghas = 0; _cnt++; } \
+  if (_s->fo_valid && OSG_EQUIV(_s, _s->fo_val, _k)) { _s->fo_valid = 0; _cnt++; } \
+  if (!_stored_value) { unsigned long _m = nondet_ulong(); __CPROVER_assume(_m <= _s->size - _cnt - (unsigned long)_s->ghas - (unsigned long)_s->fo_valid); _cnt += _m; } \
+  _s->size -= _cnt; _s->n_erased += _cnt; REACH("set_erase"); \
+  _s->nf_valid = 1; _s->nf_key = _k; \
+  _cnt; })
 #endif
